@@ -607,6 +607,20 @@ def sync_before_handover(ctx, p):
         inner = lib.must_sites(fo, ['std::io::BufWriter::<W>::into_inner', 're:BufWriter.*::flush$', 're:Write>::flush$'])
         lib.precedes(ctx, p + 'e bufwriter-flushed-before-sync', fo, inner, syncs,
                      'buffered log bytes are written (BufWriter::into_inner/flush) before sync_data', removed_edges=sync_true)
+    # the same for log files found at open: their bytes may sit only in the page cache (the previous process died, or stopped on an
+    # I/O error, before flush_one synced them); replay applies them to the tables, so they are synced first
+    rpn = F.body('log::Log::replay_next')
+    if rpn is not None:
+        pops = [bi for b2, bi in lib.calls_on_field(F, [POP_FRONT, 're:VecDeque.*::(pop_back|remove)$'], '.Log.replay_queue', bodies=[rpn])]
+        inst = [x[0] for x in core.stmt_sites_assigning_field(rpn, '.Log.reading')] + [bi for bi in rpn.normal_blocks() for st in rpn.blocks[bi]['s'] if st['k'] == 'assign' and st['r']['k'] == 'agg' and str(st['r']['ak']).endswith('log::Reading')]
+        syncs = lib.must_sites(rpn, [SYNC_DATA, SYNC_ALL])
+        sync_true = lib.prune_bool_field(rpn, '.Log.sync', True)
+        ctx.ob(p + 'g0 replay-handover-anchors', 'anchor', rpn.path, 'replay_next takes a file from the replay queue and installs it as the reader', bool(pops) and bool(inst), '%s %s' % (pops, inst))
+        after = [x for x in inst if any(x in rpn.reaches(q) for q in pops)]
+        w = rpn.find_path([y for q in pops for y in rpn.succ(q)], set(after), removed=set(syncs), removed_edges=sync_true) if after else ['?']
+        ctx.ob(p + 'g replayed-log-synced-first', 'K2-order', rpn.path,
+               'with sync_wal on, a log file found at open is fdatasynced before it is handed to the applier (replay writes its records into the tables)',
+               bool(syncs) and w is None, 'no sync_data in replay_next' if not syncs else 'the reader can be installed without the sync')
     poppers = lib.calls_on_field(F, [POP_FRONT, 're:VecDeque.*::(pop_back|drain|remove|swap_remove_.*|split_off|clear|truncate)$', 'std::mem::take', 'std::mem::replace'], '.Log.read_queue')
     pp = sorted(set(b.path for b, _ in poppers))
     ctx.ob(p + 'f read_queue-consumers', 'K4-confinement', ','.join(pp) or '-',
